@@ -3,22 +3,14 @@ from propbase import Prop, COMMON_TRUSTED
 from coqterm import cbool, cZ, copt
 from codeccommon import cjv, ccmsg, hx, jv_shrinks, drop_keys, deep
 
-import os
-
 PK0 = "0" * 63 + "1"
 
-# Which statement files are the property's proof targets.  The tree as it stands has the defects F1
-# (validKind uses ||), F2 (validNaddr cuts with strings.Split) and F10 (label pattern anchored at '[');
-# Properties/C11.v and C11Ws.v state the refutations and the partial theorems and compile only against
-# the defective guards.  After the `fix:` commits set the corresponding flag to True: the targets
-# become Properties/C11Fixed.v (full theorems; a regression breaks g_valid_kind_spec / naddr_split_is_3)
-# resp. Properties/C11WsFixed.v.  VERIF_C11_VARIANT=fixed|fixed+ws overrides (scratch runs).
-KIND_AND_NADDR_REPAIRED = True
-LEADING_WS_REPAIRED = True
-_v = os.environ.get("VERIF_C11_VARIANT", "")
-if _v:
-    KIND_AND_NADDR_REPAIRED = "fixed" in _v
-    LEADING_WS_REPAIRED = "ws" in _v
+# The defects this check found on the original tree — F1 validKind `||`, F2 validNaddr cutting with
+# strings.Split, F10 label pattern anchored at '[' — are repaired in /repo (fix: commits 8f1f086,
+# 8ebb19d, 3dc8984).  Properties/C11.v states the full theorems against the regenerated guards; a
+# regression breaks g_valid_kind_spec / naddr_split_is_3 / lead_ws_is_allowed in ValidTheorems.v and
+# the minimal inputs in corpus/C11/defects.jsonl fail the oracle again.  The predicates below
+# recognise the three classes (dedup of reports, signatures for known_findings.json).
 
 
 def _walk_ints(j, out):
@@ -106,8 +98,7 @@ def _leading_ws(c):
 
 class C11(Prop):
     id = "C11"
-    coq_targets = [("theories/Properties/C11Fixed.vo" if KIND_AND_NADDR_REPAIRED else "theories/Properties/C11.vo"),
-                   ("theories/Properties/C11WsFixed.vo" if LEADING_WS_REPAIRED else "theories/Properties/C11Ws.vo")]
+    coq_targets = ["theories/Properties/C11.vo"]
     check_vo = "theories/Check/C11Check.vo"
     check_module = "Moc.Check.C11Check"
     case_imports = ["Moc.Json", "Moc.CodecMsg", "Moc.Codec", "Moc.Valid"]
